@@ -80,6 +80,17 @@ PROPS = {
             {'kind': 'custom', 'name': 'firstuse', 'module': 'c09', 'fn': 'run', 'replay_fn': 'replay', 'launches': {'quick': 16, 'thorough': 300}},
         ],
     },
+    'C10': {
+        'rule': 'every read-only operation evaluated with owning / Map / Map<const> operands on the left and on the right over exact-size heap blocks at aligned and mis-aligned offsets (AddressSanitizer build), every write operation through mutable views over guarded buffers; non-trivial: mis-aligned buffer, non-identity operands',
+        'assumptions': ['AddressSanitizer + UBSan (g++) report any read outside the exact-size heap block that backs a view; guard words detect writes outside the payload',
+                        'results across operand kinds compared within 16u of the magnitude of each result (bit-identity recorded as a statistic)'],
+        'stages': [
+            {'src': 'C10.cpp', 'configs': D_GROUPS + ['SE3f', 'SO2f'] + BUNDLES, 'tag': '-asan',
+             'defs': ['-fsanitize=address,undefined', '-fno-sanitize-recover=undefined', '-fno-omit-frame-pointer'],
+             'cases': {'quick': 1500, 'thorough': 60000}, 'shards': {'quick': 1, 'thorough': 2},
+             'case_scale': {'B_SGal3_SE2_SE23_SO3_R1_d': 0.3}},
+        ],
+    },
     'C11': {
         'rule': 'bundle layouts covering every group first/middle/last, repeated and single, differing DoF/RepSize/Dim/matrix sizes; per-element inputs of 1.3; non-trivial: >= 2 elements with different DoF and input non-identity in every element',
         'assumptions': ['offsets are recomputed by the harness as prefix sums of the documented per-group sizes (engine/vf_ref.cpp Spec), not read from manif traits',
